@@ -178,3 +178,25 @@ def stations_in_two_models():
         out[name] = dict(selected=[float(v) for v in sel['cell'].values], labels=[int(v) for v in sel['point'].values],
                          extracted=[None if v != v else float(v) for v in ext['cell'].values], want=want)
     return out
+
+
+def export_with_staggered_axes():
+    """C15: a CF file that carries the axes of a second, staggered grid (lat_v, lon_u: same units, other sizes)."""
+    import json
+    import shutil
+    from emsarray.operations import geometry as G
+    work = _work()
+    try:
+        lat = numpy.array([10.0, 11.0, 12.0])
+        lon = numpy.array([100.0, 102.0, 104.0, 106.0])
+        ds = builders.cf1d(3, 4, lat=lat, lon=lon, data_vars={'temp': (('y', 'x'), numpy.zeros((3, 4)))})
+        ds = ds.assign(lat_v=(('yv',), numpy.array([9.5, 10.5, 11.5, 12.5]), {'units': 'degrees_north', 'long_name': 'latitude of v points'}),
+                       lon_u=(('xu',), numpy.array([99.0, 101.0, 103.0, 105.0, 107.0]), {'units': 'degrees_east', 'long_name': 'longitude of u points'}))
+        out = os.path.join(work, 'cells.geojson')
+        G.write_geojson(ds, out)
+        feats = json.load(open(out))['features']
+        rings = [[[round(float(c[0]), 6), round(float(c[1]), 6)] for c in f['geometry']['coordinates'][0][:-1]] for f in feats]
+        return dict(convention=type(ds.ems).__name__, count=len(feats), first=sorted(rings[0]), last=sorted(rings[-1]),
+                    indexes=[f['properties']['linear_index'] for f in feats])
+    finally:
+        shutil.rmtree(work, ignore_errors=True)
